@@ -329,7 +329,12 @@ def generate(rng, index, tier, extra):  # pylint: disable=unused-argument
             ops.append({'op': op})
             if op == 'clear':
                 length = 0
-    return {'kind': 'vec', 'cls': path, 'start': start, 'ops': ops, 'probe': rng.random() < 0.5}
+    twin = rng.random() < 0.25
+    if twin:
+        # a second vector built from the first one (as attrs converters do); both are edited
+        for op in ops:
+            op['on'] = rng.randrange(2)
+    return {'kind': 'vec', 'cls': path, 'start': start, 'ops': ops, 'probe': rng.random() < 0.5, 'twin': twin}
 
 
 # ---------------------------------------------------------------- execution
@@ -449,12 +454,32 @@ def execute(doc):  # pylint: disable=too-many-branches,too-many-statements
         res.sched_sig = ('vec', name, 'construct-refused')
         return res
     ok = _check_state(res, info, vector, model, 'start', True)
+    primary_vector, primary_model = vector, model
+    twin_vector, twin_model = None, None
+    if doc.get('twin'):
+        try:
+            twin_vector = cls(vector)
+            twin_model = list(model)
+            res.stats['probe.twin_vector_built_from_vector'] += 1
+        except (core.RunTimeout, KeyboardInterrupt, SystemExit):
+            raise
+        except BaseException as exc:  # pylint: disable=broad-except
+            res.note('twin-refused', type(exc).__name__)
     outcomes = []
     clauses = set()
     lo, hi = param.min_byte_num, param.max_byte_num
     for step, op in enumerate(doc['ops']):
         if not ok:
             break
+        if twin_vector is not None:
+            # park the state of the vector edited last, select the target of this operation
+            if op.get('on'):
+                if vector is primary_vector:
+                    primary_model = model
+                    vector, model = twin_vector, twin_model
+            elif vector is twin_vector:
+                twin_model = model
+                vector, model = primary_vector, primary_model
         new_model = list(model)
         try:
             model_value = _apply(new_model, op, pool)
@@ -490,6 +515,15 @@ def execute(doc):  # pylint: disable=too-many-branches,too-many-statements
                 break
             model = new_model
             ok = _check_state(res, info, vector, model, kind)
+            if ok and twin_vector is not None:
+                other, other_model = (primary_vector, primary_model) if vector is twin_vector else (twin_vector, twin_model)
+                if not _same(list(other), other_model):
+                    res.violation((PROPERTY, 'vectors-share-items', name, kind),
+                                  'a vector holds exactly the items a plain list would hold after the edits made to it',
+                                  'op %d %r on one vector changed another vector built from it (%d items, its model has %d)' % (
+                                      step, op, len(other), len(other_model)))
+                    ok = False
+                    break
         else:
             length_error = _is_length_error(exc)
             outcomes.append('refused' if length_error else 'raised:' + type(exc).__name__)
